@@ -98,6 +98,19 @@ pub mod verif_hooks {
         s
     }
 
+    /// The table-application decisions of a compiled plan, in the order
+    /// [apply_gpos, apply_fallback_kern, apply_kern, apply_kerx, apply_morx, apply_trak].
+    pub fn plan_applies(plan: &hb_ot_shape_plan_t) -> [bool; 6] {
+        [
+            plan.apply_gpos,
+            plan.apply_fallback_kern,
+            plan.apply_kern,
+            plan.apply_kerx,
+            plan.apply_morx,
+            plan.apply_trak,
+        ]
+    }
+
     /// Shaper chosen by a plan, and the script found per table (GSUB, GPOS).
     pub fn plan_scripts(plan: &hb_ot_shape_plan_t) -> (&'static str, [Option<u32>; 2], [bool; 2]) {
         use crate::hb::ot_layout::TableIndex;
